@@ -221,9 +221,30 @@ def base_pool(ctx):
     for k in range(6):
         rr = ctx.case_rng(-1 - k, "c36-base")
         flows = G.gen_flows(rr, rr.choice([1, 2, 4]), size="small" if k < 4 else "normal")
+        states = [T.norm(copy.deepcopy(f.get_state())) for f in flows]
         data = write_flows(flows, "bytesio", None)
-        fr, _ = T.frames(data)
-        pool.append((data, fr, [T.decode(data, s)[0] for s, _ in fr]))
+        # The base files are written by the real writer from valid flows, so they are round-trip evidence too: they must
+        # be well-formed and carry exactly the states.  (A writer that corrupts them must not crash the harness.)
+        ctx.count("ref_decode_of_written_file")
+        problem = None
+        try:
+            fr, stop = T.frames(data)
+            dec = [T.decode(data, s, e)[0] for s, e in fr]
+            if stop != len(data) or len(dec) != len(states):
+                problem = f"{len(states)} flows written, {len(dec)} complete records, framing stops at {stop} of {len(data)}"
+            else:
+                for i, (a, d) in enumerate(zip(states, dec)):
+                    if not T.same(a, T.norm(d)):
+                        problem = f"flow {i}: {T.diff(a, T.norm(d))}"
+                        break
+        except T.RefError as e:
+            problem = f"not well-formed: {e}"
+        if problem is not None:
+            ctx.violation("written-file-not-wellformed", {"where": f"base file {k}", "kinds": [G.kind_of(f) for f in flows], "problem": problem, "head": data[:200]})
+            data = b"".join(T.encode(st) for st in states)  # keep the hostile cases running from a reference-encoded file
+            fr, _ = T.frames(data)
+            dec = [T.decode(data, s, e)[0] for s, e in fr]
+        pool.append((data, fr, dec))
     return pool
 
 
